@@ -11,7 +11,7 @@ from typing import (
 import heapq as _heapq
 
 from .builtins import enumerate as a_enumerate, zip as a_zip
-from ._core import aiter, awaitify, ScopedIter, borrow
+from ._core import aiter, awaitify, ScopedIter, borrow, close_all
 from ._typing import AnyIterable, LT, T
 
 
@@ -150,9 +150,7 @@ async def merge(
             async for item in itr.tail:
                 yield item
     finally:
-        for iterator in iterators:
-            if hasattr(iterator, "aclose"):
-                await iterator.aclose()  # type: ignore
+        await close_all(iterators)
 
 
 class ReverseLT(Generic[LT]):
